@@ -554,6 +554,10 @@ impl<'tcx> Dumper<'tcx> {
         if matches!(kind, DefKind::Fn | DefKind::AssocFn) {
             v.push(("vis", J::S(format!("{:?}", tcx.visibility(def)))));
             v.push(("vis_pub", J::B(tcx.visibility(def).is_public())));
+            // nameable from outside the crate (a `pub fn` of a private module that nothing re-exports is not)
+            if let Some(ld) = def.as_local() {
+                v.push(("exported", J::B(tcx.effective_visibilities(()).is_reachable(ld))));
+            }
             let g = tcx.generics_of(def);
             v.push(("n_generics", J::I(g.own_params.iter().filter(|p| !matches!(p.kind, ty::GenericParamDefKind::Lifetime)).count() as i128)));
             v.push(("n_parent_generics", J::I(g.parent_count as i128)));
